@@ -3,7 +3,7 @@ HOOKS = dict(guard='ADAPTAGRAMS_VERIF',
              baseline_off_cmd='make -C /repo/cola -k check',
              source_commits=['31cf118'], add_only=True)
 NOTES = ('See DESIGN.md. bin/check <Cnn> quick|thorough is the single entry point; exit 2 = check broken (never a VIOLATION). Thorough tiers of most checks run several rounds with further seeds (ROUNDS in bin/check; VERIF_ROUNDS overrides), stopping at the first round with a violation. Hook commit in /repo: 31cf118 (H1: IncSolver step events in '
-         'libvpsc/solve_VPSC.{h,cpp}, guarded by ADAPTAGRAMS_VERIF, add-only). Repairs of genuine defects in /repo (unguarded "fix:" commits): a92ac61, a8080b2, 7e61e2d, 6e1feea, 43c244c, 41ebabe, e517133, f673802, 7f15c51; '
+         'libvpsc/solve_VPSC.{h,cpp}, guarded by ADAPTAGRAMS_VERIF, add-only). Repairs of genuine defects in /repo (unguarded "fix:" commits): a92ac61, a8080b2, 7e61e2d, 6e1feea, 43c244c, 41ebabe, e517133, f673802, 7f15c51, 98eb188; '
          'recorded in known-findings.txt as "fixed:" lines; defects recorded rather than repaired are the "known:" lines of that file (DESIGN 6b).')
 
 chk('C16', 'model_checking',
